@@ -40,6 +40,7 @@ type Replay struct {
 
 // Ctx is the per-process context of one check run.
 type Ctx struct {
+	depthOverride int // when > 0, the call-depth budget of the reference evaluator (and, with a margin, of the batch run) for the current sub-check
 	stepOverride int64 // when > 0, the step budget of the reference evaluator for the current sub-check (scale programs)
 	T        *testing.T
 	ID       string
